@@ -517,6 +517,39 @@ func (c *Ctx) err4() {
 			}
 		}
 	}
+	// the pure validators refuse with a deny error and nothing else: whatever
+	// they return non-nil answers to IsDeny (Backoff gives nil for it; any
+	// other class sends the caller into a retry loop for a permanent refusal)
+	for _, name := range []string{"publishPacket", "stringCheck", "topicCheck"} {
+		fn := c.Fn("ERR-4", name)
+		if fn == nil {
+			continue
+		}
+		a := c.acc("ERR-4", fn, "every-refusal-is-a-deny-error")
+		for _, o := range ef.returnOrigins(fn) {
+			if len(o.Classes) == 0 {
+				continue // nil
+			}
+			isDeny, others := false, []string{}
+			for k := range o.Classes {
+				if deny[k] {
+					isDeny = true
+				} else if k != "nil" {
+					others = append(others, k)
+				}
+			}
+			sort.Strings(others)
+			switch {
+			case isDeny && len(others) == 0:
+				a.pass()
+			case isDeny:
+				a.failAt(o.Site, "%s refuses with %s, which also carries %v", name, o.What, others)
+			default:
+				a.failAt(o.Site, "%s refuses with %s (classes %v), which is no member of denyErrs: IsDeny is false for a permanent refusal — the sentinel formatted with %%v instead of %%w, or the wrong one of two siblings", name, o.What, others)
+			}
+		}
+		a.done(1, "every error origin wraps a member of denyErrs and nothing else")
+	}
 	// the size test uses errPacketMax, the string tests errStringMax
 	for _, nm := range []string{"errPacketMax", "errStringMax", "errUTF8", "errNull", "errZero", "errSubscribeNone", "errUnsubscribeNone"} {
 		key := "ERR-4|listed|" + nm
@@ -1157,6 +1190,28 @@ func (c *Ctx) err4Walk() {
 	}
 	f := c.acc("ERR-4", fn, "false⇒no-pending-siblings(len(stack)=0)")
 	t := c.acc("ERR-4", fn, "true⇒matched(identity-or-Is)")
+	// an element of the list of targets (the []error parameter)
+	isTarget := func(v ssa.Value) bool {
+		v = stripConv(v)
+		if mi, ok := v.(*ssa.MakeInterface); ok {
+			v = stripConv(mi.X)
+		}
+		switch x := v.(type) {
+		case *ssa.UnOp:
+			if ia, ok := x.X.(*ssa.IndexAddr); ok {
+				_, isParam := stripConv(ia.X).(*ssa.Parameter)
+				return isParam && ia.X.Type().String() == "[]error"
+			}
+		case *ssa.Extract:
+			if nx, ok := x.Tuple.(*ssa.Next); ok {
+				if rg, ok := nx.Iter.(*ssa.Range); ok {
+					_, isParam := stripConv(rg.X).(*ssa.Parameter)
+					return isParam
+				}
+			}
+		}
+		return false
+	}
 	for _, p := range c.Paths("ERR-4", fn) {
 		if p.End != pathx.KReturn {
 			continue
@@ -1191,11 +1246,12 @@ func (c *Ctx) err4Walk() {
 		for i := range p.Events {
 			e := &p.Events[i]
 			if e.Kind == pathx.KAssume && e.Truth {
-				if bo, ok := e.Val.(*ssa.BinOp); ok && bo.Op == token.EQL && bo.X.Type().String() == "error" {
+				// (the error at hand against one of the targets: exactly one side is an element of the list)
+				if bo, ok := e.Val.(*ssa.BinOp); ok && bo.Op == token.EQL && bo.X.Type().String() == "error" && isTarget(bo.X) != isTarget(bo.Y) {
 					matched = true
 				}
 			}
-			if e.Kind == pathx.KCall && e.Method != nil && e.Method.Name() == "Is" {
+			if e.Kind == pathx.KCall && e.Method != nil && e.Method.Name() == "Is" && len(e.Args) == 2 && isTarget(e.Args[1]) {
 				if rel, _, k := p.Known(e.Result, i, -1); k && rel == pathx.RTrue {
 					matched = true
 				}
@@ -1265,7 +1321,13 @@ func (c *Ctx) err4Walk() {
 			}
 		case *ssa.Call:
 			if bl, ok := x.Call.Value.(*ssa.Builtin); ok && bl.Name() == "append" && len(x.Call.Args) == 2 && expand(x.Call.Args[1]) == w {
-				okPush = true
+				// appended to what was pending: not to the list itself, not to the caller's targets
+				base := expand(x.Call.Args[0])
+				if sl, isSl := base.(*ssa.Slice); isSl {
+					base = expand(sl.X)
+				}
+				_, isParam := base.(*ssa.Parameter)
+				okPush = base != w && !isParam
 			}
 		}
 		if stack == w {
